@@ -40,7 +40,7 @@ var stall = 60 * time.Millisecond
 // case
 
 type Op struct {
-	Do  string `json:"do"`  // gen | rel
+	Do  string `json:"do"`  // gen | rel | genu (GenerateUnique*: generate + caller's check function, Arg = what the check answers)
 	Arg int    `json:"arg"` // rel: index (mod) into the ids this task holds; no-op when it holds none
 }
 
@@ -220,6 +220,56 @@ func (w *world) generate(nodeIdx int, kind string) (string, error) {
 	}
 }
 
+// checkScripts: what the caller's existence check (a repository lookup in the services)
+// answers for the successive candidates of one GenerateUnique* call.
+var checkScripts = [][]string{
+	{"free"},
+	{"error"}, // repository unavailable: the helper documents "assume free, use this id"
+	{"exists", "free"},
+	{"exists", "error"},
+	{"exists", "exists", "free"},
+}
+
+// generateUnique drives IDManager.GenerateUnique{Client,PortMapping,Node}ID with a scripted
+// check function; how = the answer that made the helper accept the returned id.
+func (w *world) generateUnique(nodeIdx int, kind string, script int) (id string, err error, how string) {
+	if w.fbGen != nil || kind == "user" {
+		id, err = w.generate(nodeIdx, kind)
+		return id, err, "no-check"
+	}
+	sc := checkScripts[((script%len(checkScripts))+len(checkScripts))%len(checkScripts)]
+	n := 0
+	answer := func() (bool, error) {
+		a := "free"
+		if n < len(sc) {
+			a = sc[n]
+		}
+		n++
+		how = "check-said-" + a
+		switch a {
+		case "exists":
+			return true, nil
+		case "error":
+			return false, errors.New("verif: repository unavailable")
+		}
+		return false, nil
+	}
+	m := w.idm(nodeIdx)
+	switch kind {
+	case "client":
+		v, e := m.GenerateUniqueClientID(func(int64) (bool, error) { return answer() })
+		if e != nil {
+			return "", e, how
+		}
+		return strconv.FormatInt(v, 10), nil, how
+	case "node":
+		id, err = m.GenerateUniqueNodeID(func(string) (bool, error) { return answer() })
+	default:
+		id, err = m.GenerateUniquePortMappingID(func(string) (bool, error) { return answer() })
+	}
+	return id, err, how
+}
+
 func (w *world) release(nodeIdx int, kind, id string) error {
 	if w.fbGen != nil {
 		v, _ := strconv.ParseInt(id, 10, 64)
@@ -267,11 +317,22 @@ type model struct {
 	gens    int
 	exhaust int
 	rels    int
-	gated   bool // exhaustion observed while tasks were scheduled (not in the probe)
+	gated   bool              // exhaustion observed while tasks were scheduled (not in the probe)
+	origin  map[string]string // "<kind>:<id>" -> check answer that made GenerateUnique* accept it
 }
 
 func newModel(w *world) *model {
 	return &model{w: w, live: map[string]map[int]string{}, taken: map[string]map[int]bool{}}
+}
+
+// noteOrigin remembers which check answer made a GenerateUnique* call accept an id.
+func (m *model) noteOrigin(kind, id, how string) {
+	m.mu.Lock()
+	if m.origin == nil {
+		m.origin = map[string]string{}
+	}
+	m.origin[kind+":"+id] = how
+	m.mu.Unlock()
 }
 
 func (m *model) fail(key, detail string) {
@@ -375,7 +436,14 @@ func (m *model) checkQuiescent(where string) {
 		sort.Ints(cs)
 		for _, c := range cs {
 			if !m.marker(kind, c) {
-				m.fail("C15/"+m.w.c.Mode+"/live-id-marker-missing", fmt.Sprintf("%s: live %s id %q (class %d) has no marker in the store", where, kind, m.live[kind][c], c))
+				key := "C15/" + m.w.c.Mode + "/live-id-marker-missing"
+				extra := ""
+				if how := m.origin[kind+":"+m.live[kind][c]]; how != "" {
+					// root cause class: the id came out of a GenerateUnique* helper
+					key += "/returned-by-generate-unique/" + how
+					extra = fmt.Sprintf(" (returned by GenerateUnique after the caller's %s: IsUsed is false for an id that was just handed out, the next generation can draw it again)", how)
+				}
+				m.fail(key, fmt.Sprintf("%s: live %s id %q (class %d) has no marker in the store%s", where, kind, m.live[kind][c], c, extra))
 			}
 		}
 	}
@@ -449,8 +517,8 @@ func runCase(c Case, choose func(int, []string) int) result {
 	totalGens := 0
 	for _, t := range c.Tasks {
 		for _, o := range t.Ops {
-			if o.Do == "gen" {
-				totalGens++
+			if o.Do == "gen" || o.Do == "genu" {
+				totalGens += 1 + 2*btoi(o.Do == "genu")
 			}
 		}
 	}
@@ -480,6 +548,18 @@ func runCase(c Case, choose func(int, []string) int) result {
 				case "gen":
 					before := w.amp.candidates(ti)
 					id, err := w.generate(t.Node, t.Kind)
+					w.m.onGen(ti, t.Kind, id, err, before)
+					if err == nil {
+						held = append(held, id)
+					}
+				case "genu":
+					before := w.amp.candidates(ti)
+					id, err, how := w.generateUnique(t.Node, t.Kind, op.Arg)
+					if err != nil {
+						id, err = "", idgen.ErrIDExhausted // any clean failure (the helpers wrap the cause)
+					} else {
+						w.m.noteOrigin(t.Kind, id, how)
+					}
 					w.m.onGen(ti, t.Kind, id, err, before)
 					if err == nil {
 						held = append(held, id)
@@ -581,6 +661,32 @@ func runCase(c Case, choose func(int, []string) int) result {
 	return r
 }
 
+func countGens(ops []Op) int {
+	n := 0
+	for _, o := range ops {
+		if o.Do == "gen" || o.Do == "genu" {
+			n++
+		}
+	}
+	return n
+}
+
+func hasRel(ops []Op) bool {
+	for _, o := range ops {
+		if o.Do == "rel" {
+			return true
+		}
+	}
+	return false
+}
+
+func btoi(b bool) int {
+	if b {
+		return 1
+	}
+	return 0
+}
+
 func tail(l []vkit.Step, n int) []vkit.Step {
 	if len(l) > n {
 		return l[len(l)-n:]
@@ -634,7 +740,7 @@ func runNodeAlloc(c Case, choose func(int, []string) int) result {
 					return
 				}
 				switch op.Do {
-				case "gen":
+				case "gen", "genu":
 					a := node.NewNodeIDAllocator(w.store(t.Node))
 					id, err := a.AllocateNodeID(w.ctx)
 					slot := w.m.onAlloc(ti, id, err)
@@ -799,6 +905,8 @@ func genOps(t *rapid.T, label string, maxOps int) []Op {
 	for i := range ops {
 		if i > 0 && rapid.IntRange(0, 2).Draw(t, label+"rel") == 0 {
 			ops[i] = Op{Do: "rel", Arg: rapid.IntRange(0, 3).Draw(t, label+"arg")}
+		} else if rapid.IntRange(0, 3).Draw(t, label+"uniq") == 0 {
+			ops[i] = Op{Do: "genu", Arg: rapid.IntRange(0, len(checkScripts)-1).Draw(t, label+"check")}
 		} else {
 			ops[i] = Op{Do: "gen"}
 		}
@@ -885,7 +993,7 @@ func TestFallbackSingleInstance(t *testing.T) {
 			task := Task{Kind: "client", Ops: genOps(t, l, 3)}
 			task.Cands = rapid.SliceOfN(rapid.IntRange(0, 2), 0, 5).Draw(t, l+"cands")
 			for _, o := range task.Ops {
-				if o.Do == "gen" {
+				if o.Do == "gen" || o.Do == "genu" {
 					gens++
 				}
 			}
@@ -960,6 +1068,9 @@ var dfsProgs = []dfsProg{
 	{"gen;gen||gen;gen", [2][]Op{{gen, gen}, {gen, gen}}},
 	{"gen;rel;gen||gen;gen", [2][]Op{{gen, rel0, gen}, {gen, gen}}},
 	{"gen;rel;gen||gen;rel;gen", [2][]Op{{gen, rel0, gen}, {gen, rel0, gen}}},
+	{"genu[check errors];gen||gen;gen", [2][]Op{{{Do: "genu", Arg: 1}, gen}, {gen, gen}}},
+	{"genu[exists, then check errors]||gen;gen", [2][]Op{{{Do: "genu", Arg: 3}}, {gen, gen}}},
+	{"genu[exists, free];rel;gen||genu[free];gen", [2][]Op{{{Do: "genu", Arg: 2}, rel0, gen}, {{Do: "genu", Arg: 0}, gen}}},
 }
 
 var dfsScripts = [][]int{{0, 0, 1}, {0, 1, 0}, {1, 0, 0}, {0, 1, 2}}
@@ -986,11 +1097,14 @@ func TestExhaustive(t *testing.T) {
 							if !vkit.Thorough() && (si+sj+idx)%3 != 0 {
 								continue // quick tier: a third of the script pairs
 							}
+							if !vkit.Thorough() && strings.HasPrefix(prog.name, "genu[exists, free]") {
+								continue // deep tree (three operations per task with a check round trip): thorough only
+							}
 							c := Case{Mode: "idgen", K: k, Shared: shared, Nodes: 2, FailAt: -1, Probe: true}
 							kind := idKinds[idx%len(idKinds)]
 							c.Tasks = []Task{{Node: 0, Kind: kind, Ops: prog.ops[0], Cands: s1}, {Node: 1, Kind: kind, Ops: prog.ops[1], Cands: s2}}
 							if seed >= 0 {
-								if prog.name == "gen;gen||gen;gen" && k == 4 {
+								if ngen := countGens(prog.ops[0]) + countGens(prog.ops[1]); ngen+1 > k && !hasRel(prog.ops[0]) && !hasRel(prog.ops[1]) || ngen > k {
 									// 4 ids + 1 pre-existing > K: exhaustion inside the tree (100 attempts) — too deep for DFS
 									continue
 								}
